@@ -28,11 +28,15 @@ Proof.
     rewrite seq_length in Hl. lia.
 Qed.
 
-Lemma list_max_fresh ks : ~ In (S (list_max ks)) ks.
+Lemma lmax_ge ks n : In n ks -> n <= lmax ks.
 Proof.
-  intros Hin. pose proof (list_max_le ks (list_max ks)) as [H _]. specialize (H (Nat.le_refl _)).
-  rewrite Forall_forall in H. specialize (H _ Hin). lia.
+  induction ks as [|x r IH]; simpl; [tauto|]. intros [->|H].
+  - destruct (Nat.leb_spec (lmax r) n); lia.
+  - specialize (IH H). destruct (Nat.leb_spec (lmax r) x); lia.
 Qed.
+
+Lemma list_max_fresh ks : ~ In (S (lmax ks)) ks.
+Proof. intros Hin. apply lmax_ge in Hin. lia. Qed.
 
 Lemma alloc_fresh reuse s : NoDup (keys s) -> ~ In (alloc reuse s) (keys s).
 Proof. intros H. unfold alloc. destruct reuse; [now apply lowest_free_fresh|apply list_max_fresh]. Qed.
@@ -47,7 +51,7 @@ Proof.
     + auto.
 Qed.
 
-Lemma in_remove_key n t m id : In (m, id) (remove_key n t) <-> In (m, id) t /\ m <> n.
+Lemma in_remove_key n t (m id : nat) : In (m, id) (remove_key n t) <-> In (m, id) t /\ m <> n.
 Proof.
   unfold remove_key. rewrite filter_In. simpl. rewrite negb_true_iff, Nat.eqb_neq. tauto.
 Qed.
@@ -68,11 +72,20 @@ Proof.
   apply in_remove_key in Hin. apply in_map_iff. exists (k', v). tauto.
 Qed.
 
-Lemma in_snd t id : In id (map snd t) <-> exists n, In (n, id) t.
+Lemma in_snd (t : list (nat * nat)) (id : nat) : In id (map snd t) <-> exists n, In (n, id) t.
 Proof.
   rewrite in_map_iff. split.
   - intros ([n v] & E & H). simpl in E. subst. eauto.
   - intros (n & H). exists (n, id). auto.
+Qed.
+
+Lemma NoDup_app_singleton {A} (l : list A) x : NoDup l -> ~ In x l -> NoDup (l ++ [x]).
+Proof.
+  induction l; simpl; intros Hn Hi.
+  - constructor; auto.
+  - inversion Hn; subst. constructor.
+    + rewrite in_app_iff. simpl. intros [H|[H|[]]]; auto.
+    + apply IHl; auto.
 Qed.
 
 Lemma closed_ids_app a b : closed_ids (a ++ b) = closed_ids a ++ closed_ids b.
@@ -97,13 +110,13 @@ Record KernOK (s : st) : Prop := {
 
 Lemma kern_init : KernOK init.
 Proof.
-  constructor; simpl; try tauto; try (intros; lia).
-  - repeat constructor; simpl; intuition lia.
-  - repeat constructor; simpl; intuition lia.
-  - intros n id [H|[H|[H|[]]]]; inversion H; lia.
-  - intros id [H|[H|[H|[]]]]; lia.
-  - constructor.
-  - intros id [H|[H|[H|[]]]]; subst; auto.
+  constructor; simpl; intros;
+    repeat match goal with
+           | H : _ \/ _ |- _ => destruct H
+           | H : (_, _) = (_, _) |- _ => inversion H; clear H; subst
+           | H : False |- _ => destruct H
+           end; subst; try lia; try tauto; auto 10;
+    try (repeat constructor; simpl; intuition lia).
 Qed.
 
 Lemma good_close_mono own own' e : (forall id, In id own -> In id own') -> good_close own e -> good_close own' e.
@@ -161,7 +174,7 @@ Proof.
   - rewrite closed_ids_app, Hl. simpl. intros id' H. apply in_app_or in H. destruct H as [H|[<-|[]]].
     + destruct (K9 id' H) as [A B]. split; auto. intros H'. apply A. apply in_snd in H'. destruct H' as [m H'].
       apply in_remove_key in H'. apply in_snd. exists m. tauto.
-    + split; auto. eauto.
+    + split; eauto.
   - rewrite closed_ids_app, Hl. simpl. intros id' H. destruct (K10 id' H) as [A|A].
     + destruct (Nat.eq_dec id' id) as [->|Hne]; [right; apply in_or_app; right; now left|].
       left. apply in_snd in A. destruct A as [m A]. apply in_snd. exists m. apply in_remove_key. split; auto.
@@ -172,3 +185,290 @@ Proof.
     assert (lookup n (tbl s) = Some id') by (apply lookup_in; auto).
     assert (id' = id) by congruence. subst. now apply (K6 id).
 Qed.
+
+(* ---- the part that mentions the objects; x = a number held by a temporary --------------------- *)
+Definition fld (f : nat -> slot) (i : nat) : option nat :=
+  match f i with Some (Some n) => Some n | _ => None end.
+
+Record SlotsOK (t : list (nat * nat)) (own : list nat) (f : nat -> slot) (x : option nat) : Prop := {
+  f_tbl : forall i n, fld f i = Some n -> exists id, In (n, id) t /\ In id own;
+  f_inj : forall i j n, fld f i = Some n -> fld f j = Some n -> i = j;
+  t_held : forall n id, In (n, id) t -> In id own -> (exists i, fld f i = Some n) \/ x = Some n;
+  x_ok : forall n, x = Some n -> (exists id, In (n, id) t /\ In id own) /\ forall i, fld f i <> Some n
+}.
+
+Definition Inv (s : st) : Prop := KernOK s /\ SlotsOK (tbl s) (owned s) (slots s) None.
+
+Lemma fld_upd_eq f i v : fld (upd f i v) i = match v with Some (Some n) => Some n | _ => None end.
+Proof. unfold fld, upd. now rewrite Nat.eqb_refl. Qed.
+Lemma fld_upd_neq f i k v : k <> i -> fld (upd f i v) k = fld f k.
+Proof. unfold fld, upd. intros H. apply Nat.eqb_neq in H. now rewrite H. Qed.
+
+Ltac cases k i := destruct (Nat.eq_dec k i) as [?|?]; [subst; rewrite ?fld_upd_eq in *|rewrite ?fld_upd_neq in * by auto].
+
+(* a slot gives up its number (to a temporary that is about to be destroyed, or to close()) *)
+Lemma S_release t own f i n v :
+  SlotsOK t own f None -> fld f i = Some n -> (v = None \/ v = Some None) ->
+  SlotsOK t own (upd f i v) (Some n).
+Proof.
+  intros [A B C D] Hi Hv. constructor.
+  - intros k m H. cases k i; [destruct Hv; subst; discriminate|eauto].
+  - intros k j m H1 H2. cases k i; [destruct Hv; subst; discriminate|].
+    cases j i; [destruct Hv; subst; discriminate|eauto].
+  - intros m id H1 H2. destruct (C m id H1 H2) as [[k Hk]|E]; [|discriminate].
+    destruct (Nat.eq_dec k i) as [->|Hne].
+    + right. congruence.
+    + left. exists k. now rewrite fld_upd_neq.
+  - intros m E. inversion E; subst m. split; [eauto|].
+    intros k H. cases k i; [destruct Hv; subst; discriminate|].
+    apply n0. eapply B; eauto.
+Qed.
+
+(* the number leaves the kernel table together with its temporary holder *)
+Lemma S_close t own f n :
+  SlotsOK t own f (Some n) -> SlotsOK (remove_key n t) own f None.
+Proof.
+  intros [A B C D]. destruct (D n eq_refl) as [_ Dn]. constructor.
+  - intros i m H. destruct (A i m H) as (id & H1 & H2). exists id. split; auto.
+    apply in_remove_key. split; auto. intros ->. eapply Dn; eauto.
+  - exact B.
+  - intros m id H1 H2. apply in_remove_key in H1. destruct H1 as [H1 Hm].
+    destruct (C m id H1 H2) as [H|E]; auto. inversion E; congruence.
+  - discriminate.
+Qed.
+
+Lemma S_weaken t own f : SlotsOK t own f None -> forall x, x = None -> SlotsOK t own f x.
+Proof. intros H x ->. exact H. Qed.
+
+(* a slot without a number changes between dead / alive-empty *)
+Lemma S_blank t own f i v :
+  SlotsOK t own f None -> fld f i = None -> (v = None \/ v = Some None) -> SlotsOK t own (upd f i v) None.
+Proof.
+  intros [A B C D] Hi Hv. constructor.
+  - intros k m H. cases k i; [destruct Hv; subst; discriminate|eauto].
+  - intros k j m H1 H2. cases k i; [destruct Hv; subst; discriminate|].
+    cases j i; [destruct Hv; subst; discriminate|eauto].
+  - intros m id H1 H2. destruct (C m id H1 H2) as [[k Hk]|E]; [|discriminate].
+    left. exists k. rewrite fld_upd_neq; auto. intros ->. congruence.
+  - discriminate.
+Qed.
+
+(* the content of slot j moves to slot i, which held no number; slot j becomes empty *)
+Lemma S_move t own f i j fj :
+  SlotsOK t own f None -> fld f i = None -> f j = Some fj ->
+  SlotsOK t own (upd (upd f j (Some None)) i (Some fj)) None.
+Proof.
+  intros [A B C D] Hi Hj.
+  assert (Hfj : fld f j = fj) by (unfold fld; rewrite Hj; now destruct fj).
+  set (g := upd (upd f j (Some None)) i (Some fj)).
+  assert (Hg : forall k, fld g k = if Nat.eqb k i then fj else if Nat.eqb k j then None else fld f k).
+  { intros k. unfold g, fld, upd. destruct (Nat.eqb k i); [now destruct fj|]. now destruct (Nat.eqb k j). }
+  assert (Hsrc : forall k m, fld g k = Some m -> (k = i /\ fld f j = Some m) \/ (k <> i /\ k <> j /\ fld f k = Some m)).
+  { intros k m H. rewrite Hg in H. destruct (Nat.eqb_spec k i); [left; subst; split; congruence|].
+    destruct (Nat.eqb_spec k j); [discriminate|]. right. auto. }
+  constructor.
+  - intros k m H. destruct (Hsrc k m H) as [[_ H']|(_ & _ & H')]; eauto.
+  - intros k l m H1 H2.
+    destruct (Hsrc k m H1) as [[-> Hk]|(Hk1 & Hk2 & Hk)], (Hsrc l m H2) as [[-> Hl]|(Hl1 & Hl2 & Hl)]; auto.
+    + exfalso. apply Hl2. eapply B; eauto.
+    + exfalso. apply Hk2. eapply B; eauto.
+    + eapply B; eauto.
+  - intros m id H1 H2. destruct (C m id H1 H2) as [[k Hk]|E]; [|discriminate]. left.
+    destruct (Nat.eq_dec k j) as [->|Hkj].
+    + exists i. rewrite Hg, Nat.eqb_refl. congruence.
+    + exists k. rewrite Hg. destruct (Nat.eqb_spec k i); [subst; congruence|].
+      destruct (Nat.eqb_spec k j); [congruence|auto].
+  - discriminate.
+Qed.
+
+(* a freshly opened descriptor goes into a slot that held no number / belongs to somebody else *)
+Lemma S_new t own f i n id :
+  SlotsOK t own f None -> fld f i = None -> ~ In n (map fst t) -> (forall m, ~ In (m, id) t) ->
+  SlotsOK ((n, id) :: t) (id :: own) (upd f i (Some (Some n))) None.
+Proof.
+  intros [A B C D] Hi Hn Hid. constructor.
+  - intros k m H. cases k i.
+    + inversion H; subst. exists id. simpl. auto.
+    + destruct (A k m H) as (id' & H1 & H2). exists id'. simpl. auto.
+  - intros k j m H1 H2. cases k i; cases j i; auto.
+    + inversion H1; subst. exfalso. destruct (A j m H2) as (id' & H3 & _). apply Hn. apply in_map_iff. exists (m, id'). auto.
+    + inversion H2; subst. exfalso. destruct (A k m H1) as (id' & H3 & _). apply Hn. apply in_map_iff. exists (m, id'). auto.
+    + eauto.
+  - intros m id' [E|H1] H2.
+    + inversion E; subst. left. exists i. now rewrite fld_upd_eq.
+    + destruct H2 as [<-|H2]; [exfalso; eapply Hid; eauto|].
+      destruct (C m id' H1 H2) as [[k Hk]|E]; [|discriminate]. left. exists k. rewrite fld_upd_neq; auto.
+      intros ->. congruence.
+  - discriminate.
+Qed.
+
+Lemma S_other t own f n id :
+  SlotsOK t own f None -> ~ In id own -> SlotsOK ((n, id) :: t) own f None.
+Proof.
+  intros [A B C D] Hid. constructor.
+  - intros k m H. destruct (A k m H) as (id' & H1 & H2). exists id'. simpl. auto.
+  - exact B.
+  - intros m id' [E|H1] H2; [inversion E; subst; contradiction|eauto].
+  - discriminate.
+Qed.
+
+(* ---- every operation preserves the invariant (exch = true: the code as it is) ------------------ *)
+Lemma fld_none_of_dead f i : f i = None -> fld f i = None.
+Proof. unfold fld. now intros ->. Qed.
+
+Lemma drop_inv s x :
+  KernOK s -> SlotsOK (tbl s) (owned s) (slots s) x -> Inv (drop s x).
+Proof.
+  intros K S. destruct x as [n|]; simpl; [|split; auto].
+  destruct (x_ok _ _ _ _ S n eq_refl) as [(id & H1 & H2) _].
+  split; [eapply kern_close; eauto|]. simpl. now apply S_close.
+Qed.
+
+Lemma exec_inv reuse s o : Inv s -> Inv (exec true reuse s o).
+Proof.
+  intros [K S]. destruct o as [i|i|i j|i j|i|i|]; simpl.
+  - (* ONew *)
+    destruct (slots s i) eqn:Ei; [split; auto|].
+    pose proof (kern_open reuse true s K) as K'. unfold kopen in *. simpl in *.
+    split; [destruct K'; constructor; auto|]. simpl.
+    apply S_new; auto.
+    + now apply fld_none_of_dead.
+    + apply alloc_fresh. apply K.
+    + intros m H. apply (v_lt _ K) in H. lia.
+  - (* OEmpty *)
+    destruct (slots s i) eqn:Ei; [split; auto|]. split; [destruct K; constructor; auto|]. simpl.
+    apply S_blank; auto. now apply fld_none_of_dead.
+  - (* OMoveCtor *)
+    destruct (slots s i) eqn:Ei; [split; auto|]. destruct (slots s j) as [fj|] eqn:Ej; [|split; auto].
+    split; [destruct K; constructor; auto|]. simpl. apply S_move; auto. now apply fld_none_of_dead.
+  - (* OMoveAssign *)
+    destruct (slots s i) as [fi|] eqn:Ei; [|split; auto]. destruct (slots s j) as [fj|] eqn:Ej; [|split; auto].
+    apply drop_inv; [destruct K; constructor; auto|]. simpl.
+    destruct (Nat.eq_dec i j) as [->|Hij].
+    + (* self move-assignment: the number comes back *)
+      unfold upd at 3. rewrite Nat.eqb_refl.
+      assert (E : forall k, upd (upd (slots s) j (Some None)) j (Some fj) k = slots s k).
+      { intros k. unfold upd. destruct (Nat.eqb_spec k j); [subst; auto|auto]. }
+      destruct S as [A B C D]. constructor.
+      * intros k m H. unfold fld in H. rewrite E in H. eapply A; eauto.
+      * intros k l m H1 H2. unfold fld in H1, H2. rewrite E in H1, H2. eapply B; eauto.
+      * intros m id H1 H2. destruct (C m id H1 H2) as [[k Hk]|X]; [|discriminate]. left. exists k.
+        unfold fld. rewrite E. exact Hk.
+      * discriminate.
+    + unfold upd at 3. assert (Hne : Nat.eqb i j = false) by now apply Nat.eqb_neq. rewrite Hne, Ei.
+      (* first slot i releases its number to the temporary, then slot j's content moves in *)
+      destruct fi as [n|].
+      * assert (S1 : SlotsOK (tbl s) (owned s) (upd (slots s) i (Some None)) (Some n)).
+        { apply S_release; auto. unfold fld. now rewrite Ei. }
+        destruct S1 as [A B C D]. destruct S as [A0 B0 C0 D0].
+        set (g := upd (upd (slots s) j (Some None)) i (Some fj)).
+        assert (Hg : forall k, fld g k = if Nat.eqb k i then (match fj with Some m => Some m | None => None end)
+                                         else if Nat.eqb k j then None else fld (slots s) k).
+        { intros k. unfold g, fld, upd. destruct (Nat.eqb k i); [now destruct fj|]. now destruct (Nat.eqb k j). }
+        assert (Hfj : fld (slots s) j = match fj with Some m => Some m | None => None end)
+          by (unfold fld; now rewrite Ej).
+        assert (Hfi : fld (slots s) i = Some n) by (unfold fld; now rewrite Ei).
+        constructor.
+        -- intros k m H. rewrite Hg in H. destruct (Nat.eqb_spec k i); [eapply A0; rewrite Hfj; eauto|].
+           destruct (Nat.eqb_spec k j); [discriminate|eauto].
+        -- intros k l m H1 H2. rewrite Hg in H1, H2.
+           destruct (Nat.eqb_spec k i), (Nat.eqb_spec l i); subst; auto.
+           ++ destruct (Nat.eqb_spec l j); [discriminate|]. exfalso. apply n1. eapply B0; eauto. congruence.
+           ++ destruct (Nat.eqb_spec k j); [discriminate|]. exfalso. apply n1. eapply B0; eauto. congruence.
+           ++ destruct (Nat.eqb_spec k j); [discriminate|]. destruct (Nat.eqb_spec l j); [discriminate|]. eapply B0; eauto.
+        -- intros m id H1 H2. destruct (C0 m id H1 H2) as [[k Hk]|X]; [|discriminate].
+           destruct (Nat.eq_dec k i) as [->|Hki]; [right; congruence|]. left.
+           destruct (Nat.eq_dec k j) as [->|Hkj].
+           ++ exists i. rewrite Hg, Nat.eqb_refl. congruence.
+           ++ exists k. rewrite Hg. destruct (Nat.eqb_spec k i); [congruence|]. destruct (Nat.eqb_spec k j); [congruence|auto].
+        -- intros m E. inversion E; subst m. split; [eapply A0; eauto|].
+           intros k H. rewrite Hg in H. destruct (Nat.eqb_spec k i).
+           ++ subst. apply Hij. eapply B0; eauto. congruence.
+           ++ destruct (Nat.eqb_spec k j); [discriminate|]. apply n0. eapply B0; eauto.
+      * apply S_move; auto. unfold fld. now rewrite Ei.
+  - (* OClose *)
+    destruct (slots s i) as [[n|]|] eqn:Ei; try (split; auto; fail).
+    change (Inv (drop (set_slots s (upd (slots s) i (Some None))) (Some n))).
+    apply drop_inv; [destruct K; constructor; auto|]. simpl.
+    apply S_release; auto. unfold fld. now rewrite Ei.
+  - (* ODestroy *)
+    destruct (slots s i) as [f|] eqn:Ei; [|split; auto].
+    destruct f as [n|].
+    + change (Inv (drop (set_slots s (upd (slots s) i None)) (Some n))).
+      apply drop_inv; [destruct K; constructor; auto|]. simpl.
+      apply S_release; auto. unfold fld. now rewrite Ei.
+    + simpl. split; [destruct K; constructor; auto|]. simpl. apply S_blank; auto. unfold fld. now rewrite Ei.
+  - (* OOther *)
+    pose proof (kern_open reuse false s K) as K'. split; auto. unfold kopen. simpl.
+    apply S_other; auto. intros H. apply (own_lt _ K) in H. lia.
+Qed.
+
+Lemma inv_init : Inv init.
+Proof.
+  split; [apply kern_init|]. constructor; simpl; try discriminate.
+  intros n id _ [].
+Qed.
+
+Theorem inv_run reuse ops : Inv (run_ops true reuse ops).
+Proof.
+  unfold run_ops. generalize inv_init. generalize init. induction ops as [|o ops IH]; simpl; auto.
+  intros s H. apply IH. now apply exec_inv.
+Qed.
+
+(* ---- the theorems ------------------------------------------------------------------------------- *)
+(* never a descriptor it does not own: every close() the objects perform hits an open number whose
+   resource was handed to an object - never EBADF (a number already closed), never a resource of
+   somebody else (a number closed before and reused) *)
+Theorem never_foreign_close reuse ops :
+  let s := run_ops true reuse ops in
+  Forall (good_close (owned s)) (log s) /\
+  (forall id, In id (others s) -> In id (map snd (tbl s)) /\ ~ In id (closed_ids (log s))).
+Proof.
+  intros s. destruct (inv_run reuse ops) as [K S]. fold s in K, S. split; [apply K|].
+  intros id H. split; [now apply (oth_open _ K)|].
+  intros Hc. destruct (cl_gone _ K id Hc) as [Hn _]. apply Hn. now apply (oth_open _ K).
+Qed.
+
+(* each resource is closed at most once *)
+Theorem closed_at_most_once reuse ops : NoDup (closed_ids (log (run_ops true reuse ops))).
+Proof. destruct (inv_run reuse ops) as [K _]. apply K. Qed.
+
+(* valid() <=> owns: a slot whose fd_ is a number holds an open descriptor that was handed to an
+   object, no other slot holds the same number; and every open descriptor handed to an object is
+   held by some slot (nothing is leaked while objects are alive) *)
+Theorem valid_iff_owns reuse ops :
+  let s := run_ops true reuse ops in
+  (forall i n, field s i = Some n ->
+     (exists id, In (n, id) (tbl s) /\ In id (owned s)) /\ forall j, field s j = Some n -> j = i) /\
+  (forall n id, In (n, id) (tbl s) -> In id (owned s) -> exists i, field s i = Some n).
+Proof.
+  intros s. destruct (inv_run reuse ops) as [K [A B C D]]. fold s in A, B, C. split.
+  - intros i n H. split; [apply (A i n H)|]. intros j Hj. symmetry. eapply B; eauto.
+  - intros n id H1 H2. destruct (C n id H1 H2) as [H|H]; [exact H|discriminate].
+Qed.
+
+(* released exactly once: when no object holds anything any more, every resource ever handed to an
+   object has been closed (once, by closed_at_most_once) *)
+Theorem all_released reuse ops :
+  let s := run_ops true reuse ops in
+  (forall i, field s i = None) -> forall id, In id (owned s) -> In id (closed_ids (log s)).
+Proof.
+  intros s Hall id Hid. destruct (inv_run reuse ops) as [K [A B C D]]. fold s in K, C.
+  destruct (own_acc _ K id Hid) as [H|H]; auto.
+  apply in_snd in H. destruct H as [n H]. destruct (C n id H Hid) as [[i Hi]|X]; [|discriminate].
+  change (field s i = Some n) in Hi. rewrite Hall in Hi. discriminate.
+Qed.
+
+(* the variant whose close() leaves fd_ alone: the destructor closes the number again, and if the
+   number was handed out again in between it closes somebody else's descriptor *)
+Theorem never_foreign_close_refuted :
+  exists ops, let s := run_ops false true ops in
+    exists n id, In (EClose n (Some id)) (log s) /\ In id (others s) /\ ~ In id (map snd (tbl s)).
+Proof.
+  exists [ONew 0; OClose 0; OOther; ODestroy 0]. exists 3, 4. vm_compute. repeat split; auto 10.
+  intros [H|[H|[H|[]]]]; discriminate.
+Qed.
+
+Theorem closed_number_not_open_refuted :
+  exists ops, In (EClose 3 None) (log (run_ops false true ops)).
+Proof. exists [ONew 0; OClose 0; ODestroy 0]. vm_compute. auto 10. Qed.
